@@ -37,13 +37,13 @@ def gen(rng, ctx):
     else:
         cd = G.rand_circuit(rng, ni, ng, max_fanin=4, shape=rng.choice(["chain", "random", "tree", "diamond"]), p_input_output=0.0 if op == "acyclic_unroll" and rng.random() < 0.7 else 0.1)
     kind = "plain"
-    if op in ("limit_fanin", "limit_fanout") and rng.random() < 0.2:
+    if (op in ("limit_fanin", "limit_fanout") and rng.random() < 0.2) or (op == "insert_registers" and rng.random() < 0.15):
         cd = G.add_blackboxes(rng, cd, 1)
         kind = "pins"
     if rng.random() < 0.08:
         names = [n for n, _, _ in cd["nodes"] if "." not in n]
         v, o = rng.sample(names, 2) if len(names) > 1 else (names[0], names[0])
-        new = rng.choice([f"{o}_limit_fanin_0", f"{o}_limit_fanout_0", f"{o}_cg_insert_reg_q_1", "clk", f"c0_{o}", f"ff_{o}"])
+        new = rng.choice([f"{o}_limit_fanin_0", f"{o}_limit_fanout_0", f"{o}_cg_insert_reg_q_{rng.randint(1, 4)}", f"{o}_r_{rng.randint(1, 3)}", "clk", f"c0_{o}", f"ff_{o}"])
         try:
             cd = G.cd_rename(cd, {v: new})
             kind += "+hostile"
@@ -51,7 +51,7 @@ def gen(rng, ctx):
             pass
     if rng.random() < 0.3:
         cd = G.shuffle_nodes(rng, cd)
-    return {"op": op, "c": cd, "kind": kind, "k": rng.randint(2, 5), "stages": rng.randint(1, 4), "repeat": rng.random() < 0.25, "custom_ff": op == "insert_registers" and rng.random() < 0.35}
+    return {"op": op, "c": cd, "kind": kind, "k": rng.randint(2, 5), "stages": rng.randint(1, 4), "repeat": rng.random() < 0.25, "custom_ff": op == "insert_registers" and rng.random() < 0.35, "bare_ff": op == "insert_registers" and rng.random() < 0.15}
 
 
 def check_lib(case, ctx):
@@ -193,13 +193,22 @@ def check(case, ctx):
                 ctx.count("insert_registers_clock_is_existing_gate")
             kw = dict(ff=cg.BlackBox("myff", ["ck", "din", "en"], ["qout", "qn"]), d_port=dp, q_port=qp, other_flop_io={clkname: "ck"}, q_suffix="_r_")
             ctx.count("insert_registers_custom_flop")
+        elif case.get("bare_ff"):
+            # a cell with d and q only and an explicitly empty `other_flop_io`: nothing but d and q is connected
+            clkname = None
+            kw = dict(ff=cg.BlackBox("dly", ["d"], ["q"]), other_flop_io={})
+            ctx.count("insert_registers_explicit_empty_other_io")
         ok, r = ctx.call(cg.tx.insert_registers, c, stages, **kw)
         what = f"insert_registers(num_stages={stages}{', custom flop' if custom else ''})"
         if case.get("repeat"):
             ok, r = repeat_call(ctx, op, what, cg.tx.insert_registers, (c, stages), kw, (ok, r))
         if not ok:
-            if isinstance(r, ValueError) and "hostile" in case["kind"]:
+            if isinstance(r, ValueError) and "hostile" in case["kind"] and ("overlap" in str(r) or "already" in str(r)):
                 ctx.reject("name_clash")
+                return
+            if isinstance(r, ValueError) and before.bbs and str(r).startswith("cannot connect from bb_"):
+                # a stage boundary falls on a pin of a pre-existing blackbox: the library refuses (nothing is returned)
+                ctx.reject("register_on_blackbox_pin")
                 return
             ctx.violation("insert_registers_raised", f"{what} raised {r!r}\n{getattr(r, '_tb', '')}")
             return
